@@ -103,8 +103,11 @@ CLAIMED = {
                  "transform_bin_coordinates of all 16 SymmetryOperation_PET_CartesianGrid_* classes (loop-free, every bin, every valid "
                  "combination of the five symmetry switches, num_views symbolic <= 4096): the operation found for a bin, applied to its "
                  "basic bin, gives back the bin in all five coordinates; the basic bin is a fixed point of find_basic_bin and lies in the "
-                 "data; a bin that is its own basic bin gets an operation that leaves bins unchanged. Not decided: equality of float row "
-                 "values, non-negativity, transform_image_coordinates (voxel-inside-image / no duplicates), clear_cache/set_up."),
+                 "data; a bin that is its own basic bin gets an operation that leaves bins unchanged; (d) image side: transform_image_coordinates of all 16 "
+                 "operation classes maps (x,y,z) as the class name states (contract generated from the name), keeps (x,y) inside a centred square "
+                 "index range, and is injective (lemma per class over the real body) - a symmetry-derived row has no voxel twice if the basic row has "
+                 "none. Not decided: equality of float row values, non-negativity, the axial coordinate staying inside the image (float-derived "
+                 "q / z_shift), that the image transform is the geometric counterpart of the bin transform, clear_cache/set_up."),
         "note": ("assumed contracts: calculate_proj_matrix_elems_for_one_bin, apply_tof_kernel, SymmetryOperation::transform_proj_matrix_elems_for_one_bin, "
                  "std::unordered_map; rows are abstract ids in (b); the virtual dispatch over the 16 operation classes is a generated switch "
                  "(class list and constructor parameter order scraped and checked); flag normalisation of the constructor (90 => 180, view counts, "
